@@ -499,7 +499,17 @@ func (r *Runner) exec(c model.Call) model.Obs {
 		_, err = w.Pub.UpdateTopic(ctx, &pubsubpb.UpdateTopicRequest{Topic: &pubsubpb.Topic{Name: model.TopicPath(c.Op.Topic), Labels: map[string]string{"k": "v"}}, UpdateMask: &fieldmaskpb.FieldMask{Paths: []string{"labels"}}})
 	case "sweepDL":
 		a := actions.NewDeadLetterDeliveries(actions.DeadLetterDeliveriesParams{MaxDeliveries: c.Op.Max})
-		err = w.Client.DoCtxTx(ctx, nil, a.Execute)
+		// (what services/deadletter.go does on every tick, under the service's context)
+		sctx := ctx
+		if r.svcCtx != nil {
+			sctx = r.svcCtx
+		}
+		err = w.Client.DoCtxTx(sctx, nil, a.Execute)
+		if err != nil {
+			if perr := w.Client.DoCtxTx(context.Background(), nil, func(context.Context, *ent.Tx) error { return nil }); perr != nil {
+				err = fmt.Errorf("%w; LOCK-LEFT: a write transaction right after the failed sweep fails too: %v", err, perr)
+			}
+		}
 		if res, ok := a.Results(); ok {
 			o.N = res.NumDeadLettered
 		}
